@@ -287,6 +287,10 @@ static bool overflow_rows(Context& cx)
             ns.push_back(lim + 17);
             ns.push_back((SIZE_MAX / 2) / in.esz * 2 + 3);
         }
+        // the largest representable requests: n*sizeof(T) within Align (and a little more) of SIZE_MAX, where any rounding
+        // of the byte count wraps around
+        for (size_t k : { (size_t)0, (size_t)1, (size_t)2, (size_t)7, in.align - 1, in.align, in.align + 1, 2 * in.align + 3, (size_t)4096 })
+            ns.push_back((SIZE_MAX - k) / in.esz);
         for (size_t n : ns)
         {
             cx.st.evaluations++;
@@ -301,6 +305,12 @@ static bool overflow_rows(Context& cx)
                 if (!representable)
                 {
                     cx.add_violation(mkviol("allocate_overflow", std::string("allocate(") + std::to_string(n) + ") of " + in.tname + " (sizeof " + std::to_string(in.esz) + ", Align " + std::to_string(in.align) + ") returned a block although n*sizeof(T) is not representable; it must throw std::bad_alloc", std::to_string(i) + ":" + std::to_string(n), ""));
+                    ok = false;
+                }
+                else if (n > (((size_t)1 << 60) / in.esz))
+                {
+                    // no block of 2^60 bytes exists in a 57-bit address space: the block cannot address n*sizeof(T) bytes
+                    cx.add_violation(mkviol("allocate_overflow", std::string("allocate(") + std::to_string(n) + ") of " + in.tname + " (sizeof " + std::to_string(in.esz) + ", Align " + std::to_string(in.align) + ") returned a block for a request of more than 2^60 bytes: it cannot hold n*sizeof(T) bytes and no std::bad_alloc was thrown", std::to_string(i) + ":" + std::to_string(n), ""));
                     ok = false;
                 }
                 in.dealloc(p, n);
@@ -449,6 +459,7 @@ int main(int argc, char** argv)
             ok = overflow_rows(cx) && offset_rows<float>(cx, "float") && offset_rows<double>(cx, "double") && offset_rows<int16_t>(cx, "int16_t") && offset_rows<char>(cx, "char");
             ok = offset_rows<std::complex<float>>(cx, "complex<float>") && offset_rows<std::complex<double>>(cx, "complex<double>") && offset_rows<long double>(cx, "long double") && ok;
             ok = is_aligned_all(cx, xsimd::all_x86_architectures {}) && ok;
+            ok = is_aligned_all(cx, xsimd::arch_list<xsimd::emulated<128>, xsimd::emulated<256>, xsimd::emulated<512>> {}) && ok; // no alignment requirement, but alignment() == 8
             ok = default_alignment_row(cx) && ok;
         }
         printf(ok ? "REPLAY-PASS\n" : "REPLAY-FAIL %s\n", ok ? "" : cx.violations[0].to_json().c_str());
@@ -467,6 +478,7 @@ int main(int argc, char** argv)
         offset_rows<std::complex<double>>(cx, "complex<double>");
         offset_rows<long double>(cx, "long double");
         is_aligned_all(cx, xsimd::all_x86_architectures {});
+        is_aligned_all(cx, xsimd::arch_list<xsimd::emulated<128>, xsimd::emulated<256>, xsimd::emulated<512>> {});
         default_alignment_row(cx);
         eq_row<char, 16, double, 16>(cx);
         eq_row<char, 16, char, 32>(cx);
